@@ -19,8 +19,7 @@
    for the homogeneous/heterogeneous mean field, compact pairwise, super compact and
    (explicit sets) SIR effective degree wrappers - the models follow the code after the
    fix: commits 32a0429..6e8b3e6 of /repo, so the former _refuted theorems are now the
-   positive ones; one refutation is left (SIS heterogeneous pairwise with full data,
-   witness replayed by harness/c06.py); conservation where it is structural or follows from the
+   positive ones and no refutation is left; conservation where it is structural or follows from the
    generated right-hand sides.  Not proved (checked numerically by the harness):
    bounds and monotonicity along the curve (flow lift cited, DESIGN 3.7).  The pair
    counts of a request (`req_pairs`) are, for explicit sets, the counts over
@@ -218,12 +217,22 @@ Example C06_EBCM_returns :
 Proof. eexists. vm_compute. reflexivity. Qed.
 Print Assumptions C06_EBCM_returns.
 
-(* heterogeneous pairwise, SIS, return_full_data=True: still refused - ValueError from IkIl = NkNl - SkSl - SkIl - SkIl.T *)
-Theorem accepts_SIS_heterogeneous_pairwise_from_graph_full_refuted :
-  exists g rq, wf_ugraph g = true /\ wf_req g false rq = true /\
-    forall sv, SIS_heterogeneous_pairwise_from_graph g rq true sv = Err ValueErr.
-Proof. exact accepts_SIS_hetpw_full_refuted. Qed.
-Print Assumptions accepts_SIS_heterogeneous_pairwise_from_graph_full_refuted.
+(* heterogeneous pairwise, SIS: accepted with and without full data (fix 948324c).  _partial for row 0: only acceptance is
+   general; row 0 of IkIl, SkSl, SkIl is shown on an example (FULL statement: S, I, Sk, Ik, SkIl, SkSl, IkIl at index 0 equal
+   the request for every wf request - needs reshape/flatten and sum-over-Ks lemmas that are not written) *)
+Theorem accepts_SIS_heterogeneous_pairwise_from_graph :
+  forall g rq full sv, wf_ugraph g = true -> wf_req g false rq = true ->
+  exists out, SIS_heterogeneous_pairwise_from_graph g rq full sv = Ok out.
+Proof. exact accepts_SIS_hetpw. Qed.
+Print Assumptions accepts_SIS_heterogeneous_pairwise_from_graph.
+Example row0_SIS_heterogeneous_pairwise_from_graph_full_example :
+  exists kk out IkIl SkSl SkIl, get_NkNl_and_IC path3 (mkReq (Some [0%N; 1%N]) None None) = Ok kk /\
+      SIS_heterogeneous_pairwise_from_graph path3 (mkReq (Some [0%N; 1%N]) None None) true const_solver = Ok out /\
+      lookup nIkIl out = Some (Ma IkIl) /\ lookup nSkSl out = Some (Ma SkSl) /\ lookup nSkIl out = Some (Ma SkIl) /\
+      Forall2 (Forall2 Qeq) (IkIl 0%nat) (kk_IkIl kk) /\ SkSl 0%nat = kk_SkSl kk /\ SkIl 0%nat = kk_SkIl kk /\
+      kk_IkIl kk = [[0; 1]; [1; 0]].
+Proof. exact row0_SIS_hetpw_full_example. Qed.
+Print Assumptions row0_SIS_heterogeneous_pairwise_from_graph_full_example.
 (* heterogeneous pairwise, SIR, full data: documented order on the former witness (an example, not the general theorem) *)
 Example row0_SIR_heterogeneous_pairwise_from_graph_full_example :
   exists kk out SkSl SkIl, get_NkNl_and_IC path3 (mkReq (Some [0%N]) None None) = Ok kk /\
